@@ -1440,6 +1440,64 @@ func genT2fixed(c *Ctx) {
 			}
 		}
 	}
+	// the transient array (put / get) across subroutine calls: it belongs to the charstring, not to a call frame
+	{
+		call := func(glob bool, i int) []byte {
+			if glob {
+				return cat(num(i-107), []byte{29})
+			}
+			return cat(num(i-107), []byte{10})
+		}
+		put := func(v, i int) []byte { return cat(num(v), num(i), esc(20)) }
+		get := func(i int) []byte { return cat(num(i), esc(21)) }
+		use := cat(num(7), []byte{5}) // <value> 7 rlineto
+		for _, glob := range []bool{false, true} {
+			for _, slot := range []int{0, 5, 31} {
+				type pg struct {
+					name  string
+					main  []byte
+					subrs map[int][]byte
+				}
+				for _, p := range []pg{
+					{"put in caller, empty call + return, get", cat(mv, put(9, slot), call(glob, 0), get(slot), use, []byte{14}),
+						map[int][]byte{0: {11}}},
+					{"put in caller, drawing call + return, get", cat(mv, put(9, slot), call(glob, 0), get(slot), use, []byte{14}),
+						map[int][]byte{0: cat(num(3), num(4), []byte{5, 11})}},
+					{"put inside callee, get after return", cat(mv, call(glob, 0), get(slot), use, []byte{14}),
+						map[int][]byte{0: cat(put(13, slot), []byte{11})}},
+					{"put in caller, get inside callee", cat(mv, put(17, slot), call(glob, 0), []byte{14}),
+						map[int][]byte{0: cat(get(slot), use, []byte{11})}},
+					{"put in caller, get two levels down", cat(mv, put(19, slot), call(glob, 0), []byte{14}),
+						map[int][]byte{0: cat(call(glob, 1), []byte{11}), 1: cat(get(slot), use, []byte{11})}},
+					{"put two levels down, get in caller", cat(mv, call(glob, 0), get(slot), use, []byte{14}),
+						map[int][]byte{0: cat(call(glob, 1), []byte{11}), 1: cat(put(21, slot), []byte{11})}},
+					{"put in caller, two calls, get after each", cat(mv, put(23, slot), call(glob, 0), get(slot), use, call(glob, 0), get(slot), use, []byte{14}),
+						map[int][]byte{0: {11}}},
+					{"put in callee A, get in callee B", cat(mv, call(glob, 0), call(glob, 1), []byte{14}),
+						map[int][]byte{0: cat(put(25, slot), []byte{11}), 1: cat(get(slot), use, []byte{11})}},
+					{"overwrite in callee, get in caller", cat(mv, put(1, slot), call(glob, 0), get(slot), use, []byte{14}),
+						map[int][]byte{0: cat(put(27, slot), []byte{11})}},
+					{"put in caller, callee ends the glyph after get", cat(mv, put(29, slot), call(glob, 0)),
+						map[int][]byte{0: cat(get(slot), use, []byte{14})}},
+				} {
+					env := newT2env()
+					if glob {
+						env.ng = 2
+					} else {
+						env.ns = 2
+					}
+					for _, i := range []int{0, 1} {
+						if b, ok := p.subrs[i]; ok {
+							env.setSubr(glob, i, b)
+						}
+					}
+					c.Stat("t2.store-across-calls", p.name)
+					c.Case(Verdict, "t2.dec", env.args(p.main), true)
+					c.Case(Direct, "t2.spec", env.args(p.main), true)
+				}
+			}
+		}
+	}
 	// the stack limit (48) reached by an OPERATOR, not an operand: 47 / 48 elements, then a stack-growing operator
 	// (dup, random) or, as control, an operator that does not grow the stack (index, get, put, roll, exch), plain
 	// and inside a subroutine; TN5177 Appendix B: at most 48 entries -> the 49th is rejected
@@ -3187,6 +3245,21 @@ func genT2font(c *Ctx) {
 		emit("single glyph, fractional", []int64{u(W) + 32768})
 		emit("default + fractional explicit", append(rep(u(W), 3), u(W)-107*65536+32768))
 		emit("two widths, tie for most frequent", []int64{u(W), u(W + 120), u(W), u(W + 120)})
+	}
+	// width spread: the nominal width (mean of the non-default widths) lies far from the widest / narrowest glyph, so that
+	// selectWidths has to pull it within +-32767 of both ends, or the operand w - nominal does not fit a Type 2 number
+	for _, W := range []int{32000, 32766, 32767, 32768, 32769, 33000, 40000, 50000, 65534, 65535} {
+		for _, fr := range []int64{0, 16384, 32768, 49152, 1, 65535} {
+			emit("width spread upwards {0,0,0,100,W}", []int64{0, 0, 0, u(100), u(W) + fr})
+			emit("width spread downwards {0,0,0,-100,-W}", []int64{0, 0, 0, u(-100), -(u(W) + fr)})
+			emit("width spread, default high {W,W,W,W-100,0}", []int64{u(W) + fr, u(W) + fr, u(W) + fr, u(W-100) + fr, 0})
+		}
+		emit("width spread, three explicit", []int64{0, 0, 0, u(100), u(200), u(W)})
+		// (a spread above 65534 cannot be written at all: w - nominal exceeds +-32767 for one end whatever the nominal
+		// width, and the unchanged encoder then wraps the operand silently, the font-level face of finding C04-bigstep;
+		// widths -32767, 32767, 32768 read back as …, -32768: kept out of the stream)
+		emit("width spread both ways", []int64{0, 0, 0, u(-W / 2), u(W / 2), u(W/2 - 1)})
+		emitX("width spread, CID-keyed", []int64{0, 0, 0, 0, u(100), u(W), u(100), u(W - 1)}, 2, nil)
 	}
 	emit("most frequent width 0, explicit 107", []int64{0, 0, 0, u(107)})
 	emit("most frequent width 0, explicit -107", []int64{0, 0, 0, u(-107)})
